@@ -125,6 +125,64 @@ Proof.
   unfold msg_seq_ok. simpl. specialize (B (a_origin a)). lia.
 Qed.
 
+Lemma handle_w_seq_inv : forall s self from a s' out res,
+  seq_inv s -> msg_seq_ok s {| m_from := from; m_to := self; m_adv := a |} ->
+  handle_w s self from a = (s', out, res) ->
+  seq_inv s' /\ ctr_le s s' /\ (forall m, In m out -> msg_seq_ok s' m).
+Proof.
+  intros s self from a s' out res Hinv Hm H. unfold handle_w in H. unfold msg_seq_ok in Hm. simpl in Hm.
+  destruct (get (st_nodes s) self) as [ns|] eqn:G.
+  2:{ inversion H; subst. split; [auto|split; [intros o; lia|simpl; tauto]]. }
+  assert (Hns : node_seq_ok s ns) by (eapply Hinv; eauto).
+  destruct (seen_has (a_origin a) (a_seq a) (ns_seen ns)).
+  { inversion H; subst; clear H. split; [auto|split; [intros o; lia|simpl; tauto]]. }
+  assert (Gen : forall es sn,
+     (forall e, In e es -> e_seq e <= ctr s (e_origin e)) ->
+     (forall x, In x sn -> s_seq x <= ctr s (s_origin x)) ->
+     let s2 := {| st_nodes := set (st_nodes s) self {| ns_seq := ns_seq ns; ns_entries := es; ns_seen := sn; ns_locals := ns_locals ns |};
+                  st_links := st_links s; st_flight := st_flight s; st_now := st_now s |} in
+     seq_inv s2 /\ ctr_le s s2).
+  { intros es sn Hes Hsn s2.
+    assert (Hc : ctr_le s s2) by (eapply ctr_le_set; eauto; simpl; lia).
+    split; auto. eapply set_seq_inv; eauto; [simpl; lia|]. split.
+    - eapply node_seq_ok_mono; eauto. split; simpl; auto.
+    - intros m Hin. eapply msg_seq_ok_mono; eauto. apply Hinv. auto. }
+  set (sn := ns_seen ns ++ [{| s_origin := a_origin a; s_seq := a_seq a; s_at := st_now s; s_from := from |}]) in *.
+  assert (Hsn : forall x, In x sn -> s_seq x <= ctr s (s_origin x)).
+  { intros x Hx. unfold sn in Hx. apply in_app_or in Hx. destruct Hx as [Hx|[Hx|[]]].
+    - apply Hns. auto. - subst. simpl. auto. }
+  destruct (memN self (a_seenby a)).
+  { inversion H; subst; clear H. destruct (Gen (ns_entries ns) sn) as [A B]; auto; [apply Hns|].
+    split; auto. split; auto. simpl; tauto. }
+  inversion H; subst; clear H.
+  destruct (Gen (filter (fun e => negb (withdrawn (a_origin a) (map r_id (a_routes a)) e)) (ns_entries ns)) sn) as [A B]; auto.
+  { intros e He. apply filter_In in He. apply Hns. tauto. }
+  split; auto. split; auto.
+  intros m Hin. apply in_map_iff in Hin. destruct Hin as [p [E _]]. subst.
+  unfold msg_seq_ok. simpl. specialize (B (a_origin a)). lia.
+Qed.
+
+Lemma withdraw_seq_inv : forall s n s' out,
+  seq_inv s -> withdraw s n = (s', out) ->
+  seq_inv s' /\ ctr_le s s' /\ (forall m, In m out -> msg_seq_ok s' m).
+Proof.
+  intros s n s' out Hinv H. unfold withdraw in H.
+  destruct (get (st_nodes s) n) as [ns|] eqn:G.
+  2:{ inversion H; subst. split; [auto|split; [intros o; lia|simpl; tauto]]. }
+  destruct (filter is_cidr_route (ns_locals ns)) as [|r0 rs] eqn:F.
+  { inversion H; subst. split; [auto|split; [intros o; lia|simpl; tauto]]. }
+  inversion H; subst; clear H.
+  set (ns' := {| ns_seq := ns_seq ns + 1; ns_entries := ns_entries ns; ns_seen := ns_seen ns; ns_locals := ns_locals ns |}).
+  assert (Hc : ctr_le s {| st_nodes := set (st_nodes s) n ns'; st_links := st_links s; st_flight := st_flight s; st_now := st_now s |}).
+  { eapply ctr_le_set; eauto. simpl. lia. }
+  split; [|split; auto].
+  - eapply set_seq_inv; eauto; [simpl; lia|]. split.
+    + eapply node_seq_ok_mono; eauto; try (destruct Hinv as [HN _]; destruct (HN _ _ G); split; simpl; auto).
+    + intros m Hin. eapply msg_seq_ok_mono; eauto. apply Hinv. auto.
+  - intros m Hin. apply in_map_iff in Hin. destruct Hin as [p [E _]]. subst. unfold msg_seq_ok. simpl.
+    erewrite ctr_set by eauto. rewrite N.eqb_refl. simpl. lia.
+Qed.
+
 Lemma announce_seq_inv : forall s n s' out,
   seq_inv s -> announce s n = (s', out) ->
   seq_inv s' /\ ctr_le s s' /\ (forall m, In m out -> msg_seq_ok s' m).
@@ -209,18 +267,25 @@ Proof. intros. eapply node_seq_ok_mono; eauto. intros o. rewrite H. lia. Qed.
 Theorem step_seq_inv : forall cf s o, seq_inv s -> seq_inv (next cf s o) /\ ctr_le s (next cf s o).
 Proof.
   intros cf s o Hinv. unfold next.
-  destruct o as [n|i dup|n o sq|d|a b|a b|n k id metric|n maxage]; simpl.
+  destruct o as [n|n|i dup|n o sq|d|a b|a b|n k id metric|n maxage]; simpl.
   - destruct (announce s n) as [s' out] eqn:E. simpl.
     destruct (announce_seq_inv _ _ _ _ Hinv E) as [H1 [H2 H3]]. split; auto.
     apply seq_inv_flight; auto. intros m Hm. apply in_app_or in Hm. destruct Hm; auto. apply H1; auto.
+  - destruct (withdraw s n) as [s' out] eqn:E. simpl.
+    destruct (withdraw_seq_inv _ _ _ _ Hinv E) as [H1 [H2 H3]]. split; auto.
+    apply seq_inv_flight; auto. intros m Hm. apply in_app_or in Hm. destruct Hm; auto. apply H1; auto.
   - destruct (nth_error (st_flight s) i) as [m|] eqn:Nth; simpl; [|split; auto; intros o; lia].
-    destruct (handle cf _ (m_to m) (m_from m) (m_adv m)) as [[s2 out] res] eqn:E. simpl.
     assert (Hpm : msg_seq_ok s m). { apply Hinv. eapply nth_error_In; eauto. }
     assert (Hinv1 : seq_inv (with_flight s (if dup then st_flight s else remove_nth (st_flight s) i))).
     { apply seq_inv_flight; auto. intros x Hx. apply Hinv. destruct dup; auto. eapply In_remove_nth; eauto. }
     destruct m as [mf mt ma]. simpl in *.
-    destruct (handle_seq_inv _ _ _ _ _ _ _ _ Hinv1 Hpm E) as [H1 [H2 H3]]. split; auto.
-    apply seq_inv_flight; auto. intros x Hx. apply in_app_or in Hx. destruct Hx; auto. apply H1; auto.
+    destruct (is_w ma).
+    + destruct (handle_w _ mt mf ma) as [[s2 out] res] eqn:E. simpl.
+      destruct (handle_w_seq_inv _ _ _ _ _ _ _ Hinv1 Hpm E) as [H1 [H2 H3]]. split; auto.
+      apply seq_inv_flight; auto. intros x Hx. apply in_app_or in Hx. destruct Hx; auto. apply H1; auto.
+    + destruct (handle cf _ mt mf ma) as [[s2 out] res] eqn:E. simpl.
+      destruct (handle_seq_inv _ _ _ _ _ _ _ _ Hinv1 Hpm E) as [H1 [H2 H3]]. split; auto.
+      apply seq_inv_flight; auto. intros x Hx. apply in_app_or in Hx. destruct Hx; auto. apply H1; auto.
   - apply update_node_seq_inv; auto. intros ns G. split; [simpl; lia|]. intros s' [H1 H2].
     assert (Hc : ctr_le s s') by (eapply ctr_le_set; eauto; simpl; lia).
     eapply node_seq_ok_mono; eauto. split; simpl; auto. intros x Hx. apply filter_In in Hx. apply H2. tauto.
